@@ -2,7 +2,7 @@
 From Coq Require Import ZArith List Ascii String QArith Qabs Reals.
 From Flocq Require Import Core.
 
-From GeosV.C10 Require Import NumDefs NumProofs ShortestProofs RoundInterval ShortestRoundtrip WktDefs WktProofs JsonDefs.
+From GeosV.C10 Require Import NumDefs NumProofs ShortestProofs RoundInterval ShortestRoundtrip WktDefs WktProofs WktExpect JsonDefs.
 Import ListNotations.
 Local Open Scope Z_scope.
 
@@ -86,6 +86,19 @@ Print Assumptions C10_shortest_roundtrip_partial.
 Theorem C10_wkt_structure_roundtrip : forall c g, wf g = true -> parse (print_tokens c g) = expect c g.
 Proof. exact parse_print. Qed.
 Print Assumptions C10_wkt_structure_roundtrip.
+
+(* what an accepted round trip preserves: the type tree, emptiness, the number of coordinates and every X and Y (erase forgets the
+   dimension flags and the Z/M values) ... *)
+Theorem C10_wkt_roundtrip_shape : forall c g g', wf g = true -> parse (print_tokens c g) = Some g' -> erase g' = erase g.
+Proof. exact roundtrip_shape. Qed.
+Print Assumptions C10_wkt_roundtrip_shape.
+
+(* ... and, with standard tags (old-3D off), the dimensionality the writer's dropping rule yields: every coordinate sequence that comes back
+   has exactly the ordinates clip(output dimension)(hasZ g, hasM g) — dimension 3 keeps Z over M, dimension 2 drops both *)
+Theorem C10_wkt_roundtrip_dims : forall c g g', wf g = true -> valid_cfg c = true -> c_old3d c = false ->
+  parse (print_tokens c g) = Some g' -> all_leaves (out_ordinates c g) g' = true.
+Proof. exact roundtrip_dims. Qed.
+Print Assumptions C10_wkt_roundtrip_dims.
 
 (* ... and the faithful model REFUTES "every written string is accepted" in two input classes (both replayed on the implementation): *)
 Definition mixed_collection : geom :=
